@@ -5,6 +5,7 @@ package main
 // Stepper, and the final bindings of the names the program defines.
 
 import (
+	"math"
 	"context"
 	"errors"
 	"fmt"
@@ -115,6 +116,18 @@ func freshEnv(ec *evalCase) (EnvType, error) {
 		ec.marks = append(ec.marks, evalFrames()-ec.base)
 		return nil, nil
 	})
+	// RAW builtins, bound the kanaka/mal way (a types.Func set directly, not through lib/call): nothing recovers their
+	// panics for them and nothing copies their argument slice
+	e.Set(Symbol{Val: "raw-tuple"}, Func{Fn: func(_ context.Context, a []MalType) (MalType, error) { return List{Val: a}, nil }})
+	e.Set(Symbol{Val: "raw-panic!"}, Func{Fn: func(_ context.Context, a []MalType) (MalType, error) {
+		if len(a) == 0 {
+			panic(fmt.Errorf("raw builtin panicked: %w", errSentinel))
+		}
+		panic(a[0])
+	}})
+	e.Set(Symbol{Val: "raw-nth"}, Func{Fn: func(_ context.Context, a []MalType) (MalType, error) {
+		return []MalType{10, 20, 30}[a[0].(int)], nil // index / type-assertion panics are the point
+	}})
 	call.CallOverrideFN(e, "go-fail!", func() (MalType, error) { return nil, fmt.Errorf("builtin failed: %w", errSentinel) })
 	call.CallOverrideFN(e, "go-panic!", func() (MalType, error) { panic(fmt.Errorf("builtin panicked: %w", errSentinel)) })
 	// every other environment is followed by a second, unrelated one initialised AFTER it: an embedder may hold
@@ -193,6 +206,7 @@ func childEnv(ec *evalCase) (EnvType, error) {
 			sharedCase.marks = append(sharedCase.marks, evalFrames()-sharedCase.base)
 			return nil, nil
 		})
+		registerEmbedderShapes(e)
 		sharedEnv = e
 	}
 	sharedCase = ec
@@ -222,7 +236,9 @@ func runProgramIn(ast MalType, cancelAt int, script string, names []string, chil
 	if deadlineMode && cancelAt < 0 {
 		// a caller's context that carries a (far) deadline: `try` then derives a budget context for its body; nothing
 		// the program computes may depend on that
-		ctx.deadline = time.Now().Add(2 * time.Hour)
+		// … however far away: two hours, five years, twelve years, "never" (the saturated no-timeout idiom)
+		far := []time.Duration{2 * time.Hour, 5 * 365 * 24 * time.Hour, 12 * 365 * 24 * time.Hour, time.Duration(math.MaxInt64)}
+		ctx.deadline = time.Now().Add(far[len(render(ast))%len(far)])
 	}
 	var calls []string
 	if script != "-" {
@@ -444,4 +460,25 @@ func viaReader(ast MalType, e EnvType) MalType {
 		return ast
 	}
 	return out
+}
+
+// registerEmbedderShapes: what an embedder binds through lib/call — every combination of (context or not) × (0, 1, 2
+// results) × (fixed or variadic), and procedures whose OWN body panics (a nil-map write, an index out of range, a nil
+// dereference).  Wrong counts, wrong types and those bugs are all ordinary lisp errors for the calling program.
+func registerEmbedderShapes(e EnvType) {
+	var nilMap map[string]int
+	var nilPtr *evalCase
+	call.CallOverrideFN(e, "emb-c0", func(_ context.Context, s string) {})
+	call.CallOverrideFN(e, "emb-c1", func(_ context.Context, s string) error { return nil })
+	call.CallOverrideFN(e, "emb-c2", func(_ context.Context, s string) (MalType, error) { return s, nil })
+	call.CallOverrideFN(e, "emb-n0", func(s string) {})
+	call.CallOverrideFN(e, "emb-n1", func(s string) error { return nil })
+	call.CallOverrideFN(e, "emb-n2", func(s string) (MalType, error) { return s, nil })
+	call.CallOverrideFN(e, "emb-cv0", func(_ context.Context, xs ...MalType) {})
+	call.CallOverrideFN(e, "emb-cv1", func(_ context.Context, i int, xs ...string) error { return nil })
+	call.CallOverrideFN(e, "emb-c00", func(_ context.Context) {})
+	call.CallOverrideFN(e, "emb-bug-c0", func(_ context.Context, k string) { nilMap[k] = 1 })
+	call.CallOverrideFN(e, "emb-bug-c1", func(_ context.Context, i int) error { _ = []int{1}[i+5]; return nil })
+	call.CallOverrideFN(e, "emb-bug-n0", func(k string) { nilMap[k] = 1 })
+	call.CallOverrideFN(e, "emb-bug-c2", func(_ context.Context) (MalType, error) { return nilPtr.base, nil })
 }
